@@ -446,7 +446,7 @@ func c30StateTriple(r *kit.Rand) string {
 		{[]string{"alias q='echo q1'", "unalias q", "shopt -s expand_aliases", "shopt -u expand_aliases", "alias q='echo q2 '", "unalias -a"}, []string{"q 2>&1", "alias 2>&1", "type q 2>&1"}},
 		{[]string{"ff() { echo 1; }", "unset -f ff", "ff() { echo 2; }", "unset ff"}, []string{"ff 2>&1", "declare -f ff 2>&1", "type ff 2>&1"}},
 		{[]string{"trap 'echo err-trap' ERR", "trap - ERR", "trap '' ERR", "trap 'echo dbg' DEBUG", "trap - DEBUG"}, []string{"false", "trap", "(exit 3); echo after"}},
-		{[]string{"arr=(1 2 3)", "unset 'arr[1]'", "arr+=(4)", "arr[5]=x", "unset arr", "declare -A arr 2>/dev/null", "arr=()"}, []string{"echo \"${arr[@]}\" ${#arr[@]} ${!arr[@]}", "declare -p arr 2>&1"}},
+		{[]string{"arr=(1 2 3)", "unset 'arr[1]'", "arr+=(4)", "arr[5]=x", "unset arr", "declare -a arr 2>/dev/null", "arr=()"}, []string{"echo \"${arr[@]}\" ${#arr[@]} ${!arr[@]}", "declare -p arr 2>&1"}},
 		{[]string{"true | false | true", "false | true", "true", "(exit 3) | (exit 4)"}, []string{"echo ${PIPESTATUS[@]}", "echo $? ${PIPESTATUS[0]}"}},
 		{[]string{"[[ abc =~ (b)(c) ]]", "[[ x =~ y ]]", "[[ abc =~ a ]]"}, []string{"echo \"${BASH_REMATCH[@]}\" ${#BASH_REMATCH[@]}"}},
 		{[]string{"read <<< r1", "read v <<< r2", "REPLY=r3", "unset REPLY"}, []string{"echo \"${REPLY-unset}\""}},
